@@ -283,25 +283,25 @@ fn pop_call_info_for_line(
     let if_state = get_core_sub_state_for_command(state, IFELSE_STATE_KEY.to_string());
     let call_info_stack = get_list(CALL_STACK_STATE_KEY.to_string(), if_state);
 
-    match call_info_stack.pop() {
-        Some(state_value) => match state_value {
-            StateValue::SubState(mut call_info_state) => {
+    // frames which do not belong to this line are dropped one by one (a loop, the stack of a long
+    // running script may hold far more frames than the native stack has room for calls)
+    loop {
+        match call_info_stack.pop() {
+            Some(StateValue::SubState(mut call_info_state)) => {
                 match deserialize_call_info(&mut call_info_state) {
                     Some(call_info) => {
                         if call_info.current == line
                             && call_info.line_context_name == line_context_name
                         {
-                            Some(call_info)
-                        } else {
-                            pop_call_info_for_line(line, state)
+                            return Some(call_info);
                         }
                     }
-                    None => None,
+                    None => return None,
                 }
             }
-            _ => pop_call_info_for_line(line, state),
-        },
-        None => None,
+            Some(_) => (),
+            None => return None,
+        }
     }
 }
 
